@@ -126,6 +126,11 @@ func sendRequestToTarget(req *http.Request, httpsDefault bool) (*http.Response, 
 	changeRequestToTarget(req, httpsDefault)
 	// Remove hop-by-hop headers in the request that should not be forwarded to the target server.
 	removeHopByHopHeaders(req.Header)
+	if _, ok := req.Header["User-Agent"]; !ok {
+		// A client that names no user agent must not appear as "Go-http-client/1.1" at the origin:
+		// an explicitly empty value keeps net/http's transport from adding its default.
+		req.Header.Set("User-Agent", "")
+	}
 
 	slog.Debug("Sending request", "url", req.URL, "method", req.Method)
 	resp, err := upstreamClient.Do(req)
